@@ -71,7 +71,7 @@ def model(plugs: tuple[str, ...], pattern: dict, req: dict, bearer_shortcut: boo
     for n, v in (pattern["defaults"] or {}).items():
         h.set(n, v)
     for n, v in (req.get("headers") or {}).items():
-        h.set(n, v)
+        h.set(n, ("true" if v else "false") if isinstance(v, bool) else str(v))   # wire rendering of non-text values
     q = dict(req.get("params") or {})
     ck = dict(req.get("cookies") or {})
     for k in plugs:
@@ -105,6 +105,9 @@ PATTERNS = [
     {"name": "case_variant_default_vs_request", "defaults": {"X-A": "d", "X-Keep": "k"}, "req_headers": {"x-a": "r"},
      "auth_headers": {"X-Auth": "a"}, "key_header_name": "X-API-Key", "case": True},
     {"name": "case_variant_request_vs_plugin", "defaults": {"X-Def": "d"}, "req_headers": {"authorization": "r", "x-auth": "r2", "x-api-key": "r3"},
+     "auth_headers": {"X-Auth": "a"}, "key_header_name": "X-API-Key", "case": True},
+    # per-request header values that are not text (generated header parameters of type integer / boolean arrive like this)
+    {"name": "non_string_request_values", "defaults": {"X-Def": "d", "X-N": "default"}, "req_headers": {"X-Flag": True, "x-n": 7, "X-Off": False, "X-F": 1.5},
      "auth_headers": {"X-Auth": "a"}, "key_header_name": "X-API-Key", "case": True},
     {"name": "case_variant_plugin_vs_plugin", "defaults": {"X-Def": "d"}, "req_headers": {"X-Req": "r"},
      "auth_headers": {"x-api-key": "fromheaders", "AUTHORIZATION": "fromheaders"}, "key_header_name": "X-API-Key", "case": True},
@@ -445,6 +448,47 @@ async def run_concurrent(ctx: Ctx, mods, plugs: tuple[str, ...], pattern_i: int,
         rec.violation("concurrent:default_headers_mutated", feats, case, json.dumps(defaults))
 
 
+async def run_context_manager(ctx: Ctx, mods) -> None:
+    """`async with HttpxTransport(...)`: the same object inside, requests work, the underlying client is closed afterwards;
+    an ApiKeyAuth with an unknown location is refused when used, not silently ignored."""
+    import httpx
+
+    rec = ctx.rec
+    seen: list[httpx.Request] = []
+
+    class CapturingClient(httpx.AsyncClient):
+        def __init__(self, *a: Any, **kw: Any) -> None:
+            kw["transport"] = httpx.MockTransport(lambda r: (seen.append(r), httpx.Response(200, json={}))[1])
+            super().__init__(*a, **kw)
+
+    orig = httpx.AsyncClient
+    httpx.AsyncClient = CapturingClient  # type: ignore[misc]
+    try:
+        t = mods["ht"].HttpxTransport("https://api.test", default_headers={"X-Def": "d"})
+        bad = mods["ht"].HttpxTransport("https://api.test", auth=mods["plugins"].ApiKeyAuth("K", location="body", name="k"))
+    finally:
+        httpx.AsyncClient = orig  # type: ignore[misc]
+    case = {"context_manager": True}
+    rec.case(case, nontrivial=True)
+    rec.count("context_manager_runs")
+    async with t as inner:
+        if inner is not t:
+            rec.violation("context:enter_returns_another_object", ["context_manager"], case, repr(inner))
+        await inner.request("GET", "/op1/x")
+    if len(seen) != 1 or seen[0].headers.get("x-def") != "d":
+        rec.violation("context:request_inside_with_block", ["context_manager"], case, f"{len(seen)} requests")
+    if not t._client.is_closed:
+        rec.violation("context:client_left_open_after_exit", ["context_manager"], case, "underlying httpx client still open")
+    try:
+        await bad.request("GET", "/op1/x")
+        rec.violation("auth:unknown_api_key_location_ignored", ["context_manager"], case, "request went out without the key and without an error")
+    except ValueError:
+        pass
+    except Exception as e:  # noqa
+        rec.violation(f"auth:unknown_api_key_location:{type(e).__name__}", ["context_manager"], case, repr(e))
+    await bad.close()
+
+
 def all_cases(ctx: Ctx):
     sels = [()]
     for k in ((1, 2, 3) if ctx.quick else (1, 2, 3, 4)):
@@ -475,6 +519,8 @@ def run_shard(ctx: Ctx) -> None:
                     j += 1
                     if ctx.mine(j):
                         await run_sequence(ctx, mods, plugs, pi, shortcut)
+        if ctx.shard == 0:
+            await run_context_manager(ctx, mods)
         conc = [(), ("bearer",), ("oauth_refresh",), ("key_query", "headers", "bearer"), ("oauth_refresh", "key_header"), ("key_cookie", "oauth_refresh", "headers")]
         if not ctx.quick:
             conc += list(itertools.permutations(PLUGINS, 2))
@@ -492,7 +538,9 @@ def run_shard(ctx: Ctx) -> None:
 def replay(ctx: Ctx, file: dict) -> None:
     mods = load()
     c = file["case"]
-    if c.get("concurrent"):
+    if c.get("context_manager"):
+        asyncio.run(run_context_manager(ctx, mods))
+    elif c.get("concurrent"):
         asyncio.run(run_concurrent(ctx, mods, tuple(c["plugins"]), c["pattern"], c["shortcut"], c["n"], c["schedule"]))
     elif c.get("sequence"):
         asyncio.run(run_sequence(ctx, mods, tuple(c["plugins"]), c["pattern"], c["shortcut"]))
